@@ -12,6 +12,17 @@ CLAIMED = {
          "Theorems for every real x, every index list and every point: periodic = value mod 1 in [0,1), reflective = period-2 triangle fold in [0,1] (even, period 2, identity on [0,1]), idempotence, untouched coordinates, check_bounds iff, folded random-walk kernels symmetric. The same model term is executed at Rat and Float and compared exactly / bit-for-bit with the real functions on adversarial doubles, so a change of the code's function breaks the correspondence.",
          "DESIGN.md §6 C16"),
 }
+CLAIMED.update({
+ "C04": ("Lean 4 proof at ℝ over the ScT-polymorphic model of compute_logw_and_logz + toleranced Float correspondence on generated histories and real runs",
+         "Theorems for every well-formed history (T>=1, n_t>=1, any beta_t, z_t, logl): the max-shifted logaddexp fold equals log-sum-exp, logw = beta*l - log sum_t (n_t/N) exp(beta_t l - z_t), logz = log mean weight, normalised weights sum to one, permutation invariance of iterations, the shift law, uniformity at beta=0, exp arguments <= 0 and explicit bounds (finiteness in exact arithmetic). The model term runs at Float against the real StateManager within 1e-9(1+scale).",
+         "DESIGN.md §6 C04"),
+ "C07": ("Lean 4 induction over pipeline op sequences on a struct-of-arrays model whose field tables are regenerated from source (AST translator G5) + exact tagged-particle correspondence on the real Mutator/Resampler/StateManager",
+         "C07_reachable: for every sequence of prior draws, -inf replacements, resamplings, accept/reject steps and commits, every current particle and every committed batch is a coherent (u, x=T(u), (logl,blob)=L(x)) record, given that each movement site applies its index/mask to all four arrays — the obligation C07_tables_complete, decided on tables regenerated from /repo on every run. Real components driven with tagged particles and injected randomness must reproduce the model's tag arrays exactly.",
+         "DESIGN.md §6 C07"),
+ "C12": ("Lean 4 proof of the run-loop exit condition and of posterior() row alignment over tables/constants regenerated from source (G1, G5) + exact correspondence on all 16 option combinations and a bit-exact Float guard",
+         "C12_run_post: whenever run() returns, 1-beta < the regenerated tolerance (= double 1e-4), ESS >= n_total and evidence = Z(1) of the final history; C12_posterior_aligned: for all option combinations and any trimming/resampling routines returning as many weights as indices, all returned arrays have one length and each row is one history particle in x, logl, blobs and logw alike; weights normalised / uniform under resampling. Termination itself is not claimed.",
+         "DESIGN.md §6 C12"),
+})
 NOT_YET = {}
 props = [json.loads(l) for l in open(os.path.join(HERE, "properties.jsonl"))]
 checks, na = [], []
